@@ -1038,6 +1038,8 @@ pub fn configs(scen: &str, tier: &str) -> Vec<Cfg> {
             v.push(all("max1", vec![(0, 1, 0)], 4, &["Return", "Delay5", "Suspend", "CancelSelf", "CancelPrev"], &[0], d(3, 3), &["submit", "pass", "adv", "cancel", "join"], d(5, 6)));
             v.push(all("max2", vec![(0, 2, 0)], 4, &["Return", "Delay5", "Suspend", "CancelPrev"], &[0], d(3, 3), &["submit", "pass", "adv", "cancel", "join"], d(5, 6)));
             v.push(all("disowned-results", vec![(0, 1, 0)], 4, &["Return", "Delay5"], &[0], d(2, 3), &["submit", "pass", "adv", "cancel", "clean"], d(5, 6)));
+            // two pools sharing the queue: a task accepted by one pool may be popped (and found cancelled) by the other
+            v.push(all("two-pools", vec![(0, 1, 0), (0, 1, 0)], 2, &["Return", "Delay5"], &[0], d(2, 3), &["submit", "pass", "cancel", "join"], d(5, 6)));
         }
         _ => {}
     }
